@@ -105,6 +105,14 @@ def build_operator(d):
     if c == "PauliOperator":
         o = PauliOperator([WeightedPauliString(PauliString(*p), cx(w)) for p, w in d["items"]])
         return o, o
+    if c in ("FieldOperator", "FieldOperatorTerm") and "fterms" in d:
+        # general operator patterns (any length, incl. odd, all-create, all-annihilate): builders of checks/C10.py
+        from checks import C10
+        L, terms = C10.undesc_terms(d["fterms"])
+        W = C10.World()
+        ts = [W.term(L, pat, co) for pat, co in terms]
+        op = FieldOperator(ts)
+        return (ts[0] if c == "FieldOperatorTerm" else op), op
     if c in ("FieldOperator", "FieldOperatorTerm"):
         f = _field("fermi", d["n"])
         co = np.array([[cx(w) for w in row] for row in d["coeffs"]])
@@ -168,6 +176,7 @@ def operator_instances(rng, thorough):
         out.append({"cls": "PauliOperator", "items": items})
         out.append({"cls": "WeightedPauliString", "p": items[0][0], "w": items[0][1]})
         out.append({"cls": "PauliString", "p": items[0][0]})
+    out += field_term_instances(rng, thorough)
     for _ in range(12 if thorough else 4):
         n = rng.randint(1, 3)
         a = [[complex(round(rng.uniform(-1, 1), 3), round(rng.uniform(-1, 1), 3)) for _ in range(n)] for _ in range(n)]
@@ -185,6 +194,44 @@ def operator_instances(rng, thorough):
                     "h": [round(rng.uniform(-1, 1), 3) for _ in range(3)]})
         out.append({"cls": "FermiHubbardHamiltonian", "n": 2, "t": round(rng.uniform(-1, 1), 3), "u": round(rng.uniform(-1, 1), 3),
                     "spin": rng.random() < 0.5})
+    return out
+
+
+def field_term_instances(rng, thorough):
+    """FieldOperatorTerm / FieldOperator over general operator patterns: lengths 1-4 incl. ODD lengths whose outer descriptors
+    pair up as adjoints, all-create / all-annihilate, palindromic-adjoint patterns; coefficient tensors that are real /
+    conjugate-symmetric under reversal of all axes (what the flag tests) as well as generic ones"""
+    from checks import C10
+    out = []
+
+    def add(L, terms, cls="FieldOperatorTerm"):
+        out.append({"cls": cls, "fterms": C10.desc_terms(L, terms)})
+    for L in (1, 2, 3):
+        ones1 = np.ones((L,))
+        add(L, [([1], ones1)])                                   # a single a^dag, real coefficients
+        add(L, [([0], np.arange(1, L + 1, dtype=float))])        # a single a
+        add(L, [([1, 1], np.ones((L, L)) - np.eye(L))])          # all-create, symmetric real
+        add(L, [([0, 0], np.triu(np.ones((L, L)), 1) - np.tril(np.ones((L, L)), -1))])   # all-annihilate, antisymmetric
+        add(L, [([1, 0], np.eye(L))])                            # number operator (Hermitian)
+        add(L, [([1, 0], 1j * np.eye(L))])                       # anti-Hermitian
+        if L <= 2:
+            c3 = np.ones((L, L, L))
+            add(L, [([1, 1, 0], c3)])                            # odd, outer pair adjoint, real symmetric tensor
+            add(L, [([1, 0, 0], c3)])
+            add(L, [([0, 1, 1], c3)])
+    for _ in range(60 if thorough else 16):
+        L = rng.randint(1, 3)
+        k2 = rng.randint(0, 1 if L == 3 else 2)
+        if L ** (2 * k2 + 1) <= 64:
+            add(L, [C10.hermitian_like_odd(rng, L, k2)])
+        if k2 >= 1 and L ** (2 * k2) <= 81:
+            add(L, [C10.hermitian_like(rng, L, k2)])
+        t = C10.rand_term(rng, L, kmax=3, budget=64)
+        if len(t[0]) >= 1:
+            add(L, [t])
+        # operators of several terms (the flag of FieldOperator is derived from its terms)
+        ts = [C10.hermitian_like(rng, L, 1), C10.hermitian_like_odd(rng, L, 0)]
+        add(L, ts[:rng.randint(1, 2)], cls="FieldOperator")
     return out
 
 
@@ -253,6 +300,170 @@ def operator_flags(ctx, pid):
         claim = check_operator_flag(ctx, pid, d)
         if claim:
             ctx.nontriv(("operator-flag", repr(d)[:1500]))
+    flag_histories(ctx, pid)
+
+
+# =============================================================================== flag histories (stale answers)
+def _cx(w):
+    return complex(w[0], w[1])
+
+
+def build_flag_object(d):
+    """objects with mutable state whose flag could be cached: Pauli classes, field operators, gates"""
+    import qib
+    from qib.operator import BlockEncodingMethod
+    c = d["cls"]
+    if c in ("GeneralGate", "ControlledGate", "MultiplexedGate"):
+        mats = {"X": [[0, 1], [1, 0]], "Z": [[1, 0], [0, -1]], "S": [[1, 0], [0, 1j]], "iY": [[0, 1], [-1, 0]], "Y": [[0, -1j], [1j, 0]]}
+        gs = [qib.GeneralGate(np.array(mats[m], dtype=complex), 1) for m in d["mats"]]
+        if c == "GeneralGate":
+            return gs[0], gs[0], mats
+        if c == "ControlledGate":
+            g = qib.ControlledGate(gs[0], 1, [1])
+            return g, g, mats
+        g = qib.MultiplexedGate(gs, 1)
+        return g, g, mats
+    if c == "BlockEncodingGate":
+        h = qib.operator.PauliOperator([qib.operator.WeightedPauliString(qib.operator.PauliString.from_string("XZ"), 0.4),
+                                        qib.operator.WeightedPauliString(qib.operator.PauliString.from_string("YI"), -0.3)])
+        h.set_field(_field("qubit", 2))
+        g = qib.BlockEncodingGate(h, BlockEncodingMethod[d["method"]])
+        return g, g, None
+    obj, mobj = build_operator(d)
+    return obj, mobj, None
+
+
+def apply_flag_op(obj, mobj, extra, op):
+    """one public mutation; obj is the object whose flag is asked, mobj the one whose as_matrix() is the matrix"""
+    import qib
+    from qib.operator import PauliString, WeightedPauliString, BlockEncodingMethod
+    k = op[0]
+    strings = getattr(obj, "pstrings", None)
+    if k == "add":                       # PauliOperator.add_pauli_string: merges into an equal string, else appends
+        obj.add_pauli_string(WeightedPauliString(PauliString(*op[1]), _cx(op[2])))
+    elif k == "set_weight":
+        (strings[op[1]] if strings is not None else obj).weight = _cx(op[2])
+    elif k == "set_pauli":
+        tgt = strings[op[1]].paulis if strings is not None else (obj.paulis if hasattr(obj, "paulis") else obj)
+        tgt.set_pauli(op[2], op[3])
+    elif k == "set_q":
+        tgt = strings[op[1]].paulis if strings is not None else (obj.paulis if hasattr(obj, "paulis") else obj)
+        tgt.q = op[2]
+    elif k == "refactor_phase":
+        tgt = strings[op[1]].paulis if strings is not None else (obj.paulis if hasattr(obj, "paulis") else obj)
+        tgt.refactor_phase()
+    elif k == "remove_zero":
+        obj.remove_zero_weight_strings()
+    elif k == "set_coeffs":              # FieldOperatorTerm.coeffs / first term of a FieldOperator
+        t = obj.terms[0] if hasattr(obj, "terms") else obj
+        t.coeffs = t.coeffs * _cx(op[1])
+    elif k == "set_mat":                 # GeneralGate.mat (of the gate itself / of the target(s))
+        g = obj
+        if type(obj).__name__ == "ControlledGate":
+            g = obj.tgate
+        elif type(obj).__name__ == "MultiplexedGate":
+            g = obj.tgates[op[2] if len(op) > 2 else 0]
+        g.mat = np.array(extra[op[1]], dtype=complex)
+    elif k == "replace_target":
+        g = qib.GeneralGate(np.array(extra[op[1]], dtype=complex), 1)
+        if type(obj).__name__ == "ControlledGate":
+            obj.tgate = g
+        else:
+            obj.tgates[op[2]] = g
+    elif k == "set_method":
+        obj.method = BlockEncodingMethod[op[1]]
+    else:
+        raise ValueError(k)
+
+
+def check_flag_history(ctx, pid, d):
+    """query the flag, mutate through the public API / public attributes, query again ...; every answer True must hold of
+    the matrix AT THAT MOMENT (a cached answer that survives a mutation is a stale claim)"""
+    method = "is_unitary" if pid == "C01" else "is_hermitian"
+    try:
+        obj, mobj, extra = build_flag_object(d["obj"])
+    except Exception:
+        ctx.count("flag_history:not-constructible")
+        return
+    cls = d["obj"]["cls"]
+    if not callable(getattr(obj, method, None)):
+        return                                  # the class does not answer this question (e.g. FieldOperatorTerm.is_unitary)
+
+    def query(step):
+        try:
+            claim = bool(getattr(obj, method)())
+        except NotImplementedError:
+            return
+        if claim:
+            M = dense(mobj.as_matrix())
+            dev = float(np.abs(M @ M.conj().T - np.eye(len(M))).max()) if pid == "C01" else float(np.abs(M - M.conj().T).max())
+            if not dev <= TOLF:
+                ctx.fail("flag-history:%s.%s:claims-true-but-current-matrix-is-not" % (cls, method),
+                         dict(d, flag_sweep=True, step=step), "unitary" if pid == "C01" else "Hermitian", dev)
+    try:
+        query(-1)
+        for step, op in enumerate(d["ops"]):
+            apply_flag_op(obj, mobj, extra, op)
+            query(step)
+    except Exception as e:
+        ctx.fail("flag-history:%s.%s:raises" % (cls, method), dict(d, flag_sweep=True), "history evaluates", repr(e)[:200])
+
+
+def flag_history_inputs(rng, thorough):
+    X, Y, Z = [[0], [1], 0], [[1], [1], 1], [[1], [0], 0]
+    PO = lambda items: {"cls": "PauliOperator", "items": items}
+    H = []
+    # merge path of add_pauli_string: a present string accumulates an imaginary weight
+    H.append({"obj": PO([[X, [1, 0]], [Z, [0.5, 0]]]), "ops": [["add", X, [0, 1]], ["add", Y, [1, 0]], ["add", Z, [0, -0.25]]]})
+    H.append({"obj": PO([[X, [1, 0]]]), "ops": [["set_weight", 0, [0, 1]], ["set_weight", 0, [1, 0]], ["set_weight", 0, [1, 1]]]})
+    H.append({"obj": PO([[Y, [1, 0]], [X, [2, 0]]]), "ops": [["set_q", 0, 0], ["set_q", 0, 1], ["refactor_phase", 0], ["set_q", 1, 3]]})
+    H.append({"obj": PO([[X, [1, 0]], [Z, [1, 0]]]), "ops": [["set_pauli", 0, "Y", 0], ["set_pauli", 0, "X", 0], ["set_pauli", 1, "Y", 0]]})
+    H.append({"obj": PO([[X, [1, 0]], [Z, [0, 1]]]), "ops": [["set_weight", 1, [0, 0]], ["remove_zero"], ["add", Z, [0, 2]], ["remove_zero"]]})
+    H.append({"obj": PO([[[[0, 1], [1, 1], 1], [1, 0]]]), "ops": [["add", [[1, 0], [0, 1], 0], [0, 1]], ["add", [[0, 1], [1, 1], 1], [0, 1]]]})
+    s = 1 / np.sqrt(2)
+    H.append({"obj": {"cls": "WeightedPauliString", "p": X, "w": [1, 0]},
+              "ops": [["set_weight", 0, [2, 0]], ["set_weight", 0, [0, 1]], ["set_q", 0, 1], ["set_pauli", 0, "Y", 0], ["set_weight", 0, [s, s]]]})
+    H.append({"obj": {"cls": "PauliString", "p": [[1, 0], [1, 1], 1]}, "ops": [["set_pauli", 0, "I", 0], ["set_q", 0, 2], ["set_pauli", 0, "Y", 1], ["set_q", 0, 3]]})
+    from checks import C10
+    H.append({"obj": {"cls": "FieldOperatorTerm", "fterms": C10.desc_terms(2, [([1, 0], np.eye(2))])}, "ops": [["set_coeffs", [0, 1]], ["set_coeffs", [0, 1]]]})
+    H.append({"obj": {"cls": "FieldOperator", "fterms": C10.desc_terms(2, [([1, 0], np.ones((2, 2)))])}, "ops": [["set_coeffs", [1, 1]], ["set_coeffs", [1, -1]]]})
+    H.append({"obj": {"cls": "GeneralGate", "mats": ["X"]}, "ops": [["set_mat", "S"], ["set_mat", "Z"], ["set_mat", "iY"]]})
+    H.append({"obj": {"cls": "ControlledGate", "mats": ["Z"]}, "ops": [["set_mat", "S"], ["replace_target", "X"], ["replace_target", "iY"]]})
+    H.append({"obj": {"cls": "MultiplexedGate", "mats": ["X", "Z"]}, "ops": [["set_mat", "S", 1], ["replace_target", "Y", 1], ["replace_target", "iY", 0]]})
+    H.append({"obj": {"cls": "BlockEncodingGate", "method": "R"}, "ops": [["set_method", "Wx"], ["set_method", "R"], ["set_method", "Wxi"]]})
+    W = [[1, 0], [0, 1], [0, -1], [1, 1], [-1, 0], [0.5, 0], [0, 0]]
+    for _ in range(40 if thorough else 10):
+        n = rng.randint(1, 2)
+        rp = lambda: [[rng.randint(0, 1) for _ in range(n)], [rng.randint(0, 1) for _ in range(n)], rng.randint(0, 3)]
+        items = [[rp(), list(rng.choice(W))] for _ in range(rng.randint(1, 3))]
+        ops = []
+        for _ in range(rng.randint(2, 5)):
+            k = rng.choice(["add", "add", "set_weight", "set_q", "set_pauli", "remove_zero", "refactor_phase"])
+            i = rng.randrange(len(items))
+            if k == "add":
+                ops.append(["add", items[i][0] if rng.random() < 0.6 else rp(), list(rng.choice(W))])
+            elif k == "set_weight":
+                ops.append([k, 0, list(rng.choice(W))])
+            elif k == "set_q":
+                ops.append([k, 0, rng.randint(0, 3)])
+            elif k == "set_pauli":
+                ops.append([k, 0, rng.choice("IXYZ"), rng.randrange(n)])
+            elif k == "refactor_phase":
+                ops.append([k, 0])
+            else:
+                ops.append([k])
+        H.append({"obj": PO(items), "ops": ops})
+    return H
+
+
+def flag_histories(ctx, pid):
+    ctx.rules.append("flag histories: query %s, mutate through add_pauli_string (merge and append paths) / weight, q, set_pauli, "
+                     "refactor_phase, remove_zero_weight_strings / coefficient, matrix, target, method assignment, query again; every "
+                     "answer True must hold of the matrix at that moment" % ("is_unitary()" if pid == "C01" else "is_hermitian()"))
+    for d in flag_history_inputs(ctx.rng, ctx.thorough):
+        ctx.count("flag_histories")
+        check_flag_history(ctx, pid, d)
+        ctx.nontriv(("flag-history", repr(d)[:1500]))
 
 
 def replay_flag(ctx, pid, data):
@@ -261,7 +472,9 @@ def replay_flag(ctx, pid, data):
     if not (isinstance(inp, dict) and inp.get("flag_sweep")):
         return False
     before = len(ctx.failing)
-    if "items" in inp or "p" in inp or "coeffs" in inp or "n" in inp:
+    if "ops" in inp and "obj" in inp:
+        check_flag_history(ctx, pid, inp)
+    elif "cls" in inp:
         check_operator_flag(ctx, pid, inp)
     new = ctx.failing[before:]
     del ctx.failing[before:]
